@@ -32,6 +32,7 @@ def run(ctx):
 
     def monitors(kind, detail, schedule):
         site = {"mutex": "two-live-holders", "wrong_break": "force_break/rename", "steal_not_dead": "_handle_lock_contention",
+                "live_lock_removed_without_break": "non-break-operation",
                 "failed_attempt_holds": "_attempt_lock", "unrecoverable": "crash-state"}[kind]
         if kind == "wrong_break":
             sig = "break-removed-unexamined-lock:%s:examined-holder-released-and-later-holder-acquired" % site \
@@ -91,7 +92,7 @@ def run(ctx):
             ctx.cov["drift"], ctx.drifts = d0[0], d0[1]
             ctx.count(1, traces=1)
     # ---- E3: random schedules driven from python on the real code, validated by TLC against the spec
-    e3_traces(ctx, monitors_sig=lambda inv: {
+    e3_traces(ctx, monitors=monitors, cur=cur, monitors_sig=lambda inv: {
         "BreakOnlyExamined": "break-removed-unexamined-lock:force_break/rename:examined-holder-released-and-later-holder-acquired",
     }.get(inv, "trace-invariant:" + inv), plans=[(BASE, 150 if ctx.quick else 3000), (STEALB, 50 if ctx.quick else 600)]
         + ([] if ctx.quick else [(BIG, 1500)]))
@@ -100,10 +101,12 @@ def run(ctx):
     ctx.assume("threads model processes; exactly one runs at a time; interleaving points are transport operations")
 
 
-def e3_traces(ctx, monitors_sig, plans, p_crash=0.0, p_fault=0.0, only=None):
+def e3_traces(ctx, monitors_sig, plans, p_crash=0.0, p_fault=0.0, only=None, monitors=None, cur=None):
     import copy
     for params, n in plans:
-        trs = [lc.random_run(ctx, ctx.rng, params, p_crash=p_crash, p_fault=p_fault) for _ in range(n)]
+        if cur is not None:
+            cur[0] = params
+        trs = [lc.random_run(ctx, ctx.rng, params, p_crash=p_crash, p_fault=p_fault, monitors=monitors) for _ in range(n)]
         acc, rej = lc.validate_traces(ctx, params, trs)
         ctx.count(n, traces=n)
         for tid, viol in acc.items():
